@@ -874,10 +874,17 @@ def run(ctx):
         else:
             do_toy = do_real = do_tool = True
 
+    parts = os.environ.get("C15_PARTS")
+    if parts:
+        do_toy, do_real, do_tool = ("toy" in parts and do_toy), ("real" in parts and do_real), ("tool" in parts and do_tool)
     tie_bad, prop_bad = ([], [])
     if do_toy:
         tie_bad, prop_bad = toy_tie(S)
         ctx.log("toy tie done: %d tie mismatches, %d property failures" % (len(tie_bad), len(prop_bad)))
+        for l, rc, rm in tie_bad[:4]:
+            ctx.log("  tie mismatch: %s\n      impl : %s\n      model: %s" % (l[:300], rc[:200], rm[:200]))
+        for l, j, rc, rm in prop_bad[:4]:
+            ctx.log("  property failure %s: %s\n      impl : %s" % (j[0], l[:300], rc[:200]))
     real_bad = real_component(S) if do_real else []
     ctx.log("real-codec component oracle done: %d failures" % len(real_bad))
     tool_bad = tool_oracle(S) if do_tool else []
